@@ -689,6 +689,6 @@ def compute_rspca(
         compute=compute,
     )
     # rescale eigen values
-    eigen_values *= (n_components + oversample - 1) / (m - 1)
+    eigen_values *= (Xcompressed.shape[0] - 1) / (m - 1)
 
     return B, A, eigen_values
